@@ -29,7 +29,7 @@ MC_Pieces == { <<60>>, <<62>>, <<47>>, <<33>>, <<45>>, <<97>>, <<32>>, <<61>>, <
                <<80, 85, 66, 76, 73, 67>>, S_cdata, <<97, 109, 112>>, <<110, 111, 116, 105, 116>>, <<45, 45>> }
 MC_PiecesSmall == { <<60>>, <<62>>, <<47>>, <<33>>, <<45>>, <<97>>, <<32>>, <<61>>, <<34>>, <<38>>, <<59>>, <<35>> }
 
-Cfgs == { [state |-> st, last |-> la, cdata |-> cd, replies |-> StdReplies] :
+Cfgs == { [state |-> st, last |-> la, cdata |-> cd, replies |-> StdReplies, inject |-> <<>>] :
             st \in StartStates, la \in {<<>>, <<S_title>>, <<S_script>>}, cd \in BOOLEAN }
 
 Init == cfgv \in Cfgs /\ inp = <<>> /\ np = 0
